@@ -1,5 +1,6 @@
 import Goflow.Conc.KafkaAdapter
 import Goflow.Generated.Sync
+import Goflow.Generated.Kafka
 /-!
   C20 — Kafka output. **Partial by a wide margin**: what is proved is the adapter (topic, key and
   value pass unchanged and in order; the producer is closed — flushed — before the forwarder is
@@ -43,6 +44,25 @@ theorem equal_keys_same_partition (parts : Nat) (input : List KMsg) (o : Outcome
     (hc : Contract true parts input o) (a b : KMsg × Nat) (ha : a ∈ o.delivered) (hb : b ∈ o.delivered)
     (hk : a.1.key = b.1.key) : a.2 = b.2 := by
   rw [hc.2.2 rfl a ha, hc.2.2 rfl b hb, hk]
+
+/-- The producer settings the contract is stated for, as (*KafkaDriver).Init assigns them now (regenerated on every
+    run): errors are returned on the error stream (`Return.Errors = true`, successes not), the message size limit is the
+    `maxmsgbytes` flag and nothing else, the flush threshold is the `flushbytes` flag — two *different* settings, so a
+    small flush threshold cannot limit the size of a message —, the partitioner is round-robin unless `hashing` is set,
+    then the hash partitioner; compression only when a known codec is named. Every assignment to a producer setting is
+    in this list, with the conditions it sits under. -/
+theorem producer_settings_match :
+    Goflow.Generated.kafkaProducerSettings =
+      [("", "kafkaConfig.Producer.Return.Successes", "false"),
+       ("", "kafkaConfig.Producer.Return.Errors", "true"),
+       ("", "kafkaConfig.Producer.MaxMessageBytes", "d.kafkaMaxMsgBytes"),
+       ("", "kafkaConfig.Producer.Flush.Bytes", "d.kafkaFlushBytes"),
+       ("", "kafkaConfig.Producer.Flush.Frequency", "d.kafkaFlushFrequency"),
+       ("", "kafkaConfig.Producer.Partitioner", "sarama.NewRoundRobinPartitioner"),
+       ("d.kafkaCompressionCodec != \"\" && !(cc, ok := compressionCodecs[strings.ToLower(d.kafkaCompressionCodec)]; !ok)",
+        "kafkaConfig.Producer.Compression", "cc"),
+       ("d.kafkaHashing", "kafkaConfig.Producer.Partitioner", "sarama.NewHashPartitioner")] := by
+  decide +kernel
 
 /-- non-vacuity: an outcome satisfying the contract -/
 example : Contract true 4 [⟨"t", [1], [2]⟩] ⟨[(⟨"t", [1], [2]⟩, hashPartition [1] 4)], []⟩ := by
